@@ -2,7 +2,9 @@
 (* Whole-application facts of export -> InitChain on a fresh application (C18):                    *)
 (*   the export succeeds, the exported state is importable, a second export (taken from the state  *)
 (*   InitChain produced) is identical module by module, the initial validator set equals the       *)
-(*   exported active set, and the imported chain can finalise blocks.                              *)
+(*   exported active set, every gRPC query handler of the four modules gives the same answer on   *)
+(*   both chains (parameterless queries and keyed ones for every known validator, member,         *)
+(*   withdrawal id), and the imported chain can finalise blocks.                                   *)
 (* The module-level equivalence (derived indices and queues) is checked by the `reimport` events   *)
 (* of Trace_Locking / Trace_Bridge / Trace_Relayer on the same runs.                               *)
 EXTENDS Naturals, Sequences, Json, TLC
@@ -12,7 +14,7 @@ Init == l = 1
 Next == /\ l <= Len(Trace)
         /\ Trace[l].ev = "export"
         /\ Trace[l].ok
-        /\ (Trace[l].phase = "import") => (Trace[l].identical /\ Trace[l].valsEqual)
+        /\ (Trace[l].phase = "import") => (Trace[l].identical /\ Trace[l].valsEqual /\ Trace[l].queriesEqual)
         /\ l' = l + 1
 Reached == PrintT(<<"TRACE_REACHED", TLCGet("stats").diameter - 1, Len(Trace)>>)
 =============================================================================
